@@ -339,6 +339,12 @@ class Sampler:
         self.hist = None  # optional History: lets the sampler tell put_sync flushes of the current event apart
         self._hist_seen = 0
         self.multi_install_events = 0  # deliveries in which one flush call installed >= 2 SSTables
+        # durable watermark (public wal.synced_up_to), observed after every delivery: the maximum ever seen is the
+        # durability fact; any decrease between two observations is recorded
+        self.wal = None
+        self.max_synced = 0
+        self._last_synced = 0
+        self.synced_decreases: list[dict] = []
         if self.engine == "lsm":
             st = store.stats
             self._last = (st.memtable_flushes, st.compactions, 0)
@@ -357,7 +363,24 @@ class Sampler:
             if self.hist is not None:
                 self._hist_seen = len(self.hist.recs)
 
+    def watch_wal(self, wal):
+        self.wal = wal
+        if wal is not None:
+            self._last_synced = wal.synced_up_to
+            self.max_synced = max(self.max_synced, self._last_synced)
+
+    def observe_wal(self, t_ns, where="after-delivery"):
+        if self.wal is None:
+            return
+        v = self.wal.synced_up_to
+        if v < self._last_synced:
+            self.synced_decreases.append({"t": t_ns, "from": self._last_synced, "to": v, "where": where})
+        self._last_synced = v
+        if v > self.max_synced:
+            self.max_synced = v
+
     def _on_event(self, event):
+        self.observe_wal(event.time.nanoseconds)
         t = event.time.nanoseconds
         self.now_ns = t
         if self.engine == "lsm":
@@ -409,6 +432,7 @@ def build_sim(case: dict, ledger_factory=None):
         sim.schedule(Event(time=Instant.from_seconds(spec["start"]), event_type="go", target=cl))
     sampler = Sampler(store, cfg)
     sampler.hist = hist
+    sampler.watch_wal(wal)
     sim.control.on_event(sampler.on_event)
     return sim, store, wal, hist, sampler, clients
 
